@@ -6,6 +6,7 @@ mod gen;
 mod hufcodec;
 mod hufx;
 mod mat;
+mod um;
 mod frames;
 mod fsecodec;
 mod fsex;
@@ -113,6 +114,8 @@ fn main() {
         "c11exec" => fd::c11exec(rest),
         "c03exec" => c03::c03exec(rest),
         "c17rows" => mat::c17rows(rest),
+        "c16classes" => um::c16classes(rest),
+        "c16tiny" => um::c16tiny(rest),
         "c14rows" => fmt::c14rows(rest),
         "c12dec" => fsex::c12dec(rest),
         "c12enc" => fsex::c12enc(rest),
